@@ -946,6 +946,6 @@ func replayC07(path string) int {
 }
 
 func init() {
-	register(&Prop{ID: "C07", Level: "fault_enumeration", QuickBudget: 100 * time.Second, ThoroughBudget: 20 * time.Minute,
+	register(&Prop{ID: "C07", Level: "fault_enumeration", QuickBudget: 300 * time.Second, ThoroughBudget: 20 * time.Minute,
 		Run: runC07, Worker: c07Worker, Replay: replayC07})
 }
